@@ -171,6 +171,14 @@ def execute(ctx, case: dict) -> None:
             new = Remark(text, platform=platform) if text.startswith("remark") else Ace(text, platform=platform)
             obj.items.insert(min(pos, len(obj.items)), new)
             ctx.count("mixed_shapes")
+        if case.get("nested_acl") and len(obj.items) >= 2:
+            # a block that is itself an Acl object (any AceGroup subclass is a block): its lines are lines of the outer ACL
+            k = min(case["nested_acl"], len(obj.items) - 1)
+            chunk = [i for i in obj.items[-k:] if type(i).__name__ in ("Ace", "Remark")]
+            if len(chunk) == k:
+                inner = Acl(name="INNER", platform=platform, items=chunk)
+                obj.items[-k:] = [inner]
+                ctx.count("nested_acl_blocks")
     elif case["cls"] == "AceGroup":
         obj = AceGroup(case["text"], platform=platform)
     else:
@@ -253,7 +261,8 @@ def gen_cases(ctx):
                 # the new numbering coincides with the old one at both ends (not necessarily in between)
                 calls.insert(0, (seqs[0], (seqs[-1] - seqs[0]) // (count - 1)))
             yield {"cls": "Acl", "platform": platform, "text": acl["text"], "group_by": heading or "", "calls": calls,
-                   "n": count, "extra": extra, "version": rng.choice(["", "", "15", "15.2(4)M3", "16.09.06"])}
+                   "n": count, "extra": extra, "version": rng.choice(["", "", "15", "15.2(4)M3", "16.09.06"]),
+                   "nested_acl": rng.choice([0, 0, 0, 0, 1, 2, 3]) if not heading else 0}
         elif roll < 0.82:
             acl = grammar.gen_acl(rng, platform, ace_kw=dict(allow_multi=False, ws=False, max_k=2))
             body = "\n".join(acl["text"].split("\n")[1:])
@@ -276,7 +285,7 @@ def gen_cases(ctx):
             nested = {}
             if platform == "ios" and rng.random() < 0.4:
                 pos = rng.randint(0, len(members))
-                members.insert(pos, "group-object NESTED")
+                members.insert(pos, "group-object " + rng.choice(["NESTED", "prod-dmz", "top"]))
                 nested[str(pos)] = ["host 10.9.9.1", "10.9.8.0 255.255.255.0", "host 10.9.9.2"][:rng.randint(2, 3)]
             count = len(members)
             yield {"cls": "AddrGroup", "platform": platform, "text": header + "\n" + "\n".join(" " + m for m in members),
